@@ -15,6 +15,12 @@
 //!    and 65 536 octets in every character class, valid and nearly valid,
 //!    resolved against 16 base URIs near the same limits (deep, long segments,
 //!    long totals): the manifest name check against the URI join check;
+//!  * econtent.fragments — the eContent as a BER constructed OCTET STRING with a
+//!    fragment boundary at every offset (definite, indefinite, nested, empty
+//!    fragments, three fragments) for valid names and invalid names with a
+//!    valid prefix / suffix, through `Manifest::decode` relaxed and strict;
+//!  * source.pieces — `take_from` over an own `Source` that buffers the data
+//!    piecemeal (pieces of 1, 2, 3, 7, 16 octets; a split at every offset);
 //!  * cms.names — the K-th subset of names.alphabet through `Manifest::decode`;
 //!  * hash.bitstring — hash lengths {0,1,31,32,33} x unused bits {0,1,7,8} x
 //!    last-octet patterns x two data values, and all 256 one-bit changes of a
@@ -333,26 +339,95 @@ fn examine(t: &mut Tally, fx: &Fixed, c: &Case, mc: &ManifestContent, wit: &dyn 
 
 /// Decodes one eContent in one mode and applies the oracles.
 fn run_content(t: &mut Tally, fx: &Fixed, c: &Case, econtent: &Bytes, der_mode: bool) -> bool {
-    t.evals += 1;
     let mode = if der_mode { Mode::Der } else { Mode::Ber };
     let how = if der_mode { "take_from/der" } else { "take_from/ber" };
     let wit = || witness(how, c, econtent);
-    let res = guard(|| mode.decode(econtent.clone(), ManifestContent::take_from));
+    let res = guard(|| mode.decode(econtent.clone(), ManifestContent::take_from).map_err(|_| ()));
+    judge_content(t, fx, c, der_mode, res, &wit, true)
+}
+
+/// Applies the oracles to the result of one `take_from` call.
+fn judge_content(t: &mut Tally, fx: &Fixed, c: &Case, der_mode: bool, res: Result<Result<ManifestContent, ()>, String>,
+                 wit: &dyn Fn() -> String, sample_rejections: bool) -> bool {
+    t.evals += 1;
     match res {
         Err(p) => { t.outcome("panic"); t.fail("C14.decode.no_panic", wit, format!("take_from panicked: {p}")); false }
         Ok(Err(_)) => {
             if c.model_accepts(der_mode) {
                 t.outcome("rejected (model: nothing wrong)");
-                t.sample(|| format!("rejected though the model has no objection: {}", wit()))
+                if sample_rejections { t.sample(|| format!("rejected though the model has no objection: {}", wit())) }
             } else { t.outcome("rejected (model: something wrong)") }
             false
         }
         Ok(Ok(mc)) => {
             t.outcome(if c.model_accepts(der_mode) { "accepted (model: nothing wrong)" } else { "accepted (model: something wrong)" });
-            examine(t, fx, c, &mc, &wit);
+            examine(t, fx, c, &mc, wit);
             true
         }
     }
+}
+
+//------------ a source that has only part of the data buffered ---------------------
+
+/// Where the buffered window of a `PieceSource` may end.
+#[derive(Clone, Debug)]
+enum Cuts { Every(usize), At(Vec<usize>) }
+
+impl Cuts {
+    fn show(&self) -> String {
+        match self { Cuts::Every(k) => format!("pieces-of-{k}"), Cuts::At(v) => format!("cut-at-{}", v.iter().map(|x| x.to_string()).collect::<Vec<_>>().join("+")) }
+    }
+    /// The first permitted window end that is >= `need`.
+    fn next(&self, need: usize, len: usize) -> usize {
+        match self {
+            Cuts::Every(k) => (need.div_ceil(*k) * k).min(len),
+            Cuts::At(v) => v.iter().copied().filter(|x| *x >= need).min().unwrap_or(len).min(len),
+        }
+    }
+}
+
+/// An own `bcder::decode::Source`: the data arrives in pieces; `slice()` shows
+/// only what has arrived, `request(n)` lets exactly as many further pieces
+/// arrive as are needed for n octets (the contract of the trait).
+struct PieceSource { data: Bytes, pos: usize, avail: usize, cuts: Cuts }
+
+impl PieceSource {
+    fn new(data: Bytes, cuts: Cuts) -> Self { PieceSource { data, pos: 0, avail: 0, cuts } }
+}
+
+impl bcder::decode::Source for PieceSource {
+    type Error = std::convert::Infallible;
+    fn pos(&self) -> bcder::decode::Pos { self.pos.into() }
+    fn request(&mut self, len: usize) -> Result<usize, Self::Error> {
+        let need = (self.pos + len).min(self.data.len());
+        if self.avail < need { self.avail = self.cuts.next(need, self.data.len()) }
+        Ok(self.avail - self.pos)
+    }
+    fn slice(&self) -> &[u8] { &self.data[self.pos..self.avail] }
+    fn bytes(&self, start: usize, end: usize) -> Bytes {
+        assert!(self.pos + end <= self.avail && start <= end, "bytes() beyond the requested window");
+        self.data.slice(self.pos + start..self.pos + end)
+    }
+    fn advance(&mut self, len: usize) {
+        assert!(self.pos + len <= self.avail, "advance() beyond the requested window");
+        self.pos += len;
+    }
+}
+
+/// `take_from` over a `PieceSource`.
+fn run_pieces(t: &mut Tally, fx: &Fixed, c: &Case, econtent: &Bytes, der_mode: bool, cuts: &Cuts) -> bool {
+    let mode = if der_mode { Mode::Der } else { Mode::Ber };
+    let wit = || witness(&format!("take_from/{}/{}", if der_mode { "der" } else { "ber" }, cuts.show()), c, econtent);
+    let res = guard(|| mode.decode(PieceSource::new(econtent.clone(), cuts.clone()), ManifestContent::take_from).map_err(|_| ()));
+    judge_content(t, fx, c, der_mode, res, &wit, false)
+}
+
+/// (start, end) of the content octets of every file name in an eContent, by
+/// the engine's own TLV reader.
+fn name_spans(econtent: &[u8]) -> Vec<(usize, usize)> {
+    let root = der::parse_one(econtent, false).expect("own eContent parses");
+    let list = root.children.last().expect("fileList");
+    list.children.iter().map(|e| { let n = &e.children[0]; (n.start + n.hdr, n.end()) }).collect()
 }
 
 fn run_both(t: &mut Tally, fx: &Fixed, c: &Case) -> (bool, bool) {
@@ -380,15 +455,21 @@ impl Cms {
         let ee_der = pki::build_cert_der(&signer, &spec);
         Cms { signer, ee_der, ca }
     }
-    /// A complete RFC 6488 signed object around `econtent`, signed by the EE key
-    /// over the DER SET OF signed attributes (all written by the independent encoder).
-    fn wrap(&self, econtent: &[u8]) -> Vec<u8> {
+    /// Signed attributes and signature for `econtent` (they do not depend on
+    /// how the eContent OCTET STRING is encoded).
+    fn sign(&self, econtent: &[u8]) -> Signed {
         let attrs = vec![
             der::attr_content_type(der::OID_CT_MANIFEST),
             der::attr_signing_time(der::utctime(civ(2023, 11, 14, 22, 13, 20))),
             der::attr_message_digest(&sha256(econtent)),
         ];
         let signature = self.signer.sign_raw(EE_KEY, &der::signed_attrs_tbs(&attrs));
+        Signed { attrs, signature }
+    }
+    /// A complete RFC 6488 signed object around `econtent`, signed by the EE key
+    /// over the DER SET OF signed attributes (all written by the independent encoder).
+    fn wrap(&self, econtent: &[u8], s: &Signed) -> Vec<u8> {
+        let (attrs, signature) = (s.attrs.clone(), s.signature.clone());
         der::signed_data(&der::SignedDataParts {
             version: 3,
             digest_alg_set: der::set_of(&[der::alg_sha256(false)]),
@@ -404,25 +485,82 @@ impl Cms {
             signature,
         })
     }
+    /// The same object with the eContent OCTET STRING given as a ready TLV
+    /// (so that it can be a BER constructed string); `outer_indef` also writes
+    /// the [0] wrapper and the EncapsulatedContentInfo with indefinite length.
+    fn assemble(&self, s: &Signed, econtent_tlv: &[u8], outer_indef: bool) -> Vec<u8> {
+        let eci_body = der::cat(&[der::oid(der::OID_CT_MANIFEST),
+            if outer_indef { indefinite(0xa0, econtent_tlv) } else { der::ctx(0, true, econtent_tlv) }]);
+        let eci = if outer_indef { indefinite(der::T_SEQ, &eci_body) } else { der::tlv(der::T_SEQ, &eci_body) };
+        let si = der::seq(&[
+            der::int_u(3), der::ctx(0, false, self.signer.ski(EE_KEY).as_slice()), der::alg_sha256(false),
+            der::ctx(0, true, &der::cat(&s.attrs)), der::alg_rsa_encryption(), der::octets(&s.signature),
+        ]);
+        let sd = der::seq(&[
+            der::int_u(3), der::set_of(&[der::alg_sha256(false)]), eci, der::ctx(0, true, &self.ee_der), der::set_unsorted(&[si]),
+        ]);
+        der::seq(&[der::oid(der::OID_SIGNED_DATA), der::ctx(0, true, &sd)])
+    }
+}
+
+struct Signed { attrs: Vec<Vec<u8>>, signature: Vec<u8> }
+
+fn indefinite(tag: u8, content: &[u8]) -> Vec<u8> { [&[tag, 0x80][..], content, &[0, 0]].concat() }
+
+/// One BER encoding of the eContent OCTET STRING.
+#[derive(Clone, Debug)]
+struct Enc { cuts: Vec<usize>, indef: bool, outer_indef: bool, nested: bool }
+
+impl Enc {
+    fn show(&self) -> String {
+        format!("econtent=constructed[fragments cut at {}{}{}{}]", self.cuts.iter().map(|x| x.to_string()).collect::<Vec<_>>().join("+"),
+            if self.indef { ";indefinite length" } else { "" }, if self.outer_indef { ";[0] and EncapsulatedContentInfo indefinite" } else { "" },
+            if self.nested { ";first fragment itself constructed" } else { "" })
+    }
+    /// Constructed OCTET STRING whose primitive fragments are the pieces of `e`.
+    fn tlv(&self, e: &[u8]) -> Vec<u8> {
+        let mut frags = Vec::new();
+        let mut from = 0;
+        for &c in self.cuts.iter().chain([e.len()].iter()) {
+            let mut f = der::octets(&e[from..c]);
+            if self.nested && frags.is_empty() { f = der::tlv(0x24, &f) }
+            frags.push(f);
+            from = c;
+        }
+        let body = der::cat(&frags);
+        if self.indef { indefinite(0x24, &body) } else { der::tlv(0x24, &body) }
+    }
 }
 
 /// Wraps, decodes strict and relaxed, applies the same oracles to `content()`.
-fn run_cms(t: &mut Tally, fx: &Fixed, cms: &Cms, c: &Case, econtent: &[u8], content_der_accepted: bool) {
-    let obj = Bytes::from(cms.wrap(econtent));
+fn run_cms(t: &mut Tally, fx: &Fixed, cms: &Cms, c: &Case, econtent: &[u8], content_der_accepted: bool) -> Signed {
+    let signed = cms.sign(econtent);
+    let obj = Bytes::from(cms.wrap(econtent, &signed));
     for strict in [true, false] {
+        run_object(t, fx, cms, c, econtent, &obj, strict, "", Some(content_der_accepted));
+    }
+    signed
+}
+
+/// Decodes one signed object in one mode; `enc` names a non-DER eContent encoding.
+#[allow(clippy::too_many_arguments)]
+fn run_object(t: &mut Tally, fx: &Fixed, cms: &Cms, c: &Case, econtent: &[u8], obj: &Bytes, strict: bool, enc: &str,
+              content_der_accepted: Option<bool>) {
+    {
         t.evals += 1;
-        let how = if strict { "Manifest::decode/strict" } else { "Manifest::decode/relaxed" };
-        let wit = || witness(how, c, econtent);
+        let wit = || witness(&format!("Manifest::decode/{}{}{enc}", if strict { "strict" } else { "relaxed" }, if enc.is_empty() { "" } else { " " }), c, econtent);
+        // a constructed eContent is not DER: the strict decoder may refuse it whatever it holds
+        let model_ok = c.model_accepts(true) && (enc.is_empty() || !strict);
         match guard(|| Manifest::decode(obj.clone(), strict)) {
             Err(p) => { t.outcome("panic"); t.fail("C14.decode.no_panic", wit, format!("Manifest::decode panicked: {p}")) }
             Ok(Err(_)) => {
-                t.outcome(if c.model_accepts(true) { "rejected (model: nothing wrong)" } else { "rejected (model: something wrong)" });
+                t.outcome(if model_ok { "rejected (model: nothing wrong)" } else { "rejected (model: something wrong)" });
                 // the eContent of a signed object is always decoded in DER mode
-                if content_der_accepted { t.stat("cms_rejected_but_econtent_alone_accepted") }
+                if content_der_accepted == Some(true) { t.stat("cms_rejected_but_econtent_alone_accepted") }
             }
             Ok(Ok(m)) => {
-                t.outcome(if c.model_accepts(true) { "accepted (model: nothing wrong)" } else { "accepted (model: something wrong)" });
-                if !content_der_accepted { t.stat("cms_accepted_but_econtent_alone_rejected") }
+                t.outcome(if model_ok { "accepted (model: nothing wrong)" } else { "accepted (model: something wrong)" });
+                if content_der_accepted == Some(false) { t.stat("cms_accepted_but_econtent_alone_rejected") }
                 examine(t, fx, c, m.content(), &wit);
                 // the wrapping is a real signed object: it validates under the CA
                 match guard(|| m.validate_at(&cms.ca, strict, pki::time(pki::T0))) {
@@ -459,9 +597,9 @@ fn names_alphabet(ctx: &Ctx, fx: &Fixed, cms: &Cms) {
     let k = ALPHABET.len() as u64;
     let total = seq_count(k, max_len);
     let sp = ctx.space("names.alphabet", &format!(
-        "every string of length 0..={max_len} over the alphabet {{a Z 0 - _ . /}} as a file name, at each of the 6 placements in lists of 1, 2 and 3 entries (other entries valid), decoded by ManifestContent::take_from in DER and BER mode; non-trivial = distinct names containing a dot (stem/extension split exercised)"));
+        "every string of length 0..={max_len} over the alphabet {{a Z 0 - _ . /}} as a file name, at each of the 6 placements in lists of 1, 2 and 3 entries (other entries valid), decoded by ManifestContent::take_from in DER and BER mode from a complete buffer and (placements first-of-1 and last-of-3) from an own Source that has the eContent arrive in two pieces, split at every offset from the first to past the last octet of the name; non-trivial = distinct names containing a dot (stem/extension split exercised)"));
     let spc = ctx.space("cms.names", &format!(
-        "every {CMS_EVERY}th name of names.alphabet in shortlex enumeration order (index i with i % {CMS_EVERY} == 0), placement (i / {CMS_EVERY}) % 6, wrapped in a complete signed object (EE certificate under TA->CA, RSA signature over the DER signed attributes) and decoded by Manifest::decode strict and relaxed; non-trivial = distinct wrapped names containing a dot"));
+        "every {CMS_EVERY}th name of names.alphabet in shortlex enumeration order (index i with i % {CMS_EVERY} == 0), placement (i / {CMS_EVERY}) % 6, wrapped in a complete signed object (EE certificate under TA->CA, RSA signature over the DER signed attributes) and decoded by Manifest::decode strict and relaxed, with the eContent as a primitive OCTET STRING and as a constructed one of two fragments split at every offset of the name; non-trivial = distinct wrapped names containing a dot"));
     let chunk = 2048u64;
     let nchunks = total.div_ceil(chunk);
     let parts: Vec<(Tally, Tally)> = (0..nchunks).into_par_iter().map(|ci| {
@@ -478,9 +616,23 @@ fn names_alphabet(ctx: &Ctx, fx: &Fixed, cms: &Cms) {
                 let acc = run_content(&mut t, fx, &c, &ec, true);
                 run_content(&mut t, fx, &c, &ec, false);
                 if acc && a == 0 { t.stat("distinct_names_accepted"); t.sample(|| format!("accepted name \"{}\"", esc(&name))) }
+                // the position of the name under test in the list, and of its octets in the eContent
+                let (from, to) = name_spans(&ec)[[0usize, 0, 1, 0, 1, 2][a]];
+                if a == 0 || a == 5 {
+                    // the decoder sees the data arrive in two pieces, split at every offset of the name
+                    for cut in from..=to {
+                        for der_mode in [true, false] { run_pieces(&mut t, fx, &c, &ec, der_mode, &Cuts::At(vec![cut])); }
+                    }
+                }
                 if cms_arr == Some(a) {
                     if name.contains(&b'.') { tc.nontrivial += 1 }
-                    run_cms(&mut tc, fx, cms, &c, &ec, acc);
+                    let signed = run_cms(&mut tc, fx, cms, &c, &ec, acc);
+                    // the eContent as a constructed OCTET STRING of two fragments, split at every offset of the name
+                    for cut in from..=to {
+                        let enc = Enc { cuts: vec![cut], indef: false, outer_indef: false, nested: false };
+                        let obj = Bytes::from(cms.assemble(&signed, &enc.tlv(&ec), false));
+                        for strict in [true, false] { run_object(&mut tc, fx, cms, &c, &ec, &obj, strict, &enc.show(), None) }
+                    }
                 }
             }
         }
@@ -491,9 +643,9 @@ fn names_alphabet(ctx: &Ctx, fx: &Fixed, cms: &Cms) {
     t.flush(ctx, &sp); tc.flush(ctx, &spc);
     sp.set("alphabet", serde_json::json!("a Z 0 - _ . /"));
     sp.set("names", serde_json::json!(total));
-    sp.done(true, &format!("all {total} names of length 0..={max_len} x 6 placements x 2 modes"));
+    sp.done(true, &format!("all {total} names of length 0..={max_len} x 6 placements x 2 modes, + 2 placements x every split offset of the name x 2 modes"));
     spc.set("every", serde_json::json!(CMS_EVERY));
-    spc.done(true, &format!("every {CMS_EVERY}th of {total} names, both decode modes"));
+    spc.done(true, &format!("every {CMS_EVERY}th of {total} names, both decode modes, primitive eContent + every split offset of the name"));
 }
 
 const BASE_NAMES: [&str; 5] = ["a.roa", "ab-_0.cer", "Z9.mft", "x.crl", "A_b-c.GBR"];
@@ -521,7 +673,7 @@ fn names_octets(ctx: &Ctx, fx: &Fixed, cms: &Cms) {
                 let ec = Bytes::from(c.econtent());
                 let acc = run_content(&mut t, fx, &c, &ec, true);
                 run_content(&mut t, fx, &c, &ec, false);
-                if a == 0 && idx % CMS_EVERY == 0 { run_cms(&mut t, fx, cms, &c, &ec, acc) }
+                if a == 0 && idx % CMS_EVERY == 0 { run_cms(&mut t, fx, cms, &c, &ec, acc); }
             }
         }
         t
@@ -678,7 +830,7 @@ fn names_length(ctx: &Ctx, fx: &Fixed, cms: &Cms) {
                 let acc = run_content(&mut t, fxl, &c, &ec, true);
                 run_content(&mut t, fxl, &c, &ec, false);
                 if acc && a == 0 { t.stat("distinct_names_accepted") }
-                if si == 0 && a == 0 && (l % 25 == 0 || (248..=258).contains(&l) || l > 300) { run_cms(&mut t, fxl, cms, &c, &ec, acc) }
+                if si == 0 && a == 0 && (l % 25 == 0 || (248..=258).contains(&l) || l > 300) { run_cms(&mut t, fxl, cms, &c, &ec, acc); }
             }
         }
         t
@@ -686,6 +838,91 @@ fn names_length(ctx: &Ctx, fx: &Fixed, cms: &Cms) {
     for p in parts { t0.absorb(p) }
     t0.flush(ctx, &sp);
     sp.done(true, &format!("{} stem lengths x {} classes x 8 shapes x 2 placements x 2 modes, each accepted list against {} bases", lens.len(), classes.len(), fxl.bases.len()));
+}
+
+//------------ how the eContent reaches the name check ---------------------------------------
+
+/// Names for the fragmentation spaces: valid ones, invalid ones with a valid
+/// prefix / suffix / infix, and one bad octet at every position of a valid name.
+fn fragment_names() -> Vec<Vec<u8>> {
+    let mut v: Vec<Vec<u8>> = [
+        &b"ab.cer"[..], b"a-b_C1.roa", b"X0.mft",
+        b"ab.cer/../../../other/x.cer", b"ab.cer/x.cer", b"ab.cerX", b"ab.cer.roa", b"ab.cer\0", b"ab.cer/", b"ab.cer..", b"ab.cer ",
+        b"x/ab.cer", b"../ab.cer", b".ab.cer", b"/ab.cer", b"\0ab.cer", b"x.y/ab.cer",
+        b"x/ab.cer/y", b"../ab.cer/..",
+    ].iter().map(|n| n.to_vec()).collect();
+    let base = b"ab.cer";
+    for bad in [b'/', b'.', 0u8, b'%', 0x80] {
+        for p in 0..=base.len() { let mut n = base.to_vec(); n.insert(p, bad); v.push(n) }
+        for p in 0..base.len() { let mut n = base.to_vec(); n[p] = bad; v.push(n) }
+    }
+    v.sort(); v.dedup();
+    v
+}
+
+fn econtent_fragments(ctx: &Ctx, fx: &Fixed, cms: &Cms) {
+    let names = fragment_names();
+    let sp = ctx.space("econtent.fragments",
+        "the eContent of a correctly signed object written as a BER constructed OCTET STRING: for each name of a set (3 valid; 16 invalid with a valid prefix, suffix or infix such as ab.cer/../../../other/x.cer, ab.cerX, x/ab.cer; one of / . NUL % 0x80 inserted at every gap and substituted at every position of ab.cer), alone, before and after a valid entry: a fragment boundary at EVERY offset 0..=len of the eContent (offset 0 and len give an empty fragment) in 4 forms (definite; indefinite; indefinite inside an indefinite [0] and EncapsulatedContentInfo; first fragment itself a constructed string) and three fragments cut at (c, c+1) and at (c, c+3, indefinite); Manifest::decode relaxed and strict; non-trivial = encodings whose first boundary lies inside a file name");
+    let jobs: Vec<(usize, usize)> = (0..names.len()).flat_map(|n| [0usize, 1, 2].map(move |a| (n, a))).collect();
+    let parts: Vec<Tally> = jobs.par_iter().map(|&(ni, a)| {
+        let mut t = Tally::default();
+        let c = Case::plain(arrangement(fx, a, &names[ni]));
+        let ec = c.econtent();
+        let spans = name_spans(&ec);
+        let signed = cms.sign(&ec);
+        let n = ec.len();
+        for cut in 0..=n {
+            let mut encs = vec![
+                Enc { cuts: vec![cut], indef: false, outer_indef: false, nested: false },
+                Enc { cuts: vec![cut], indef: true, outer_indef: false, nested: false },
+                Enc { cuts: vec![cut], indef: true, outer_indef: true, nested: false },
+                Enc { cuts: vec![cut], indef: false, outer_indef: false, nested: true },
+            ];
+            if cut + 1 <= n { encs.push(Enc { cuts: vec![cut, cut + 1], indef: false, outer_indef: false, nested: false }) }
+            if cut + 3 <= n { encs.push(Enc { cuts: vec![cut, cut + 3], indef: true, outer_indef: false, nested: false }) }
+            for enc in encs {
+                if spans.iter().any(|&(f, e)| f < cut && cut < e) { t.nontrivial += 1 }
+                let obj = Bytes::from(cms.assemble(&signed, &enc.tlv(&ec), enc.outer_indef));
+                let how = enc.show();
+                for strict in [true, false] { run_object(&mut t, fx, cms, &c, &ec, &obj, strict, &how, None) }
+            }
+        }
+        t
+    }).collect();
+    let mut t = Tally::default();
+    for p in parts { t.absorb(p) }
+    t.flush(ctx, &sp);
+    sp.set("names", serde_json::json!(names.iter().map(|n| esc(n)).collect::<Vec<_>>()));
+    sp.done(true, &format!("{} names x 3 placements x every offset of the eContent x 6 encodings x 2 modes", names.len()));
+}
+
+fn source_pieces(ctx: &Ctx, fx: &Fixed) {
+    let names = fragment_names();
+    let sp = ctx.space("source.pieces",
+        "ManifestContent::take_from over an own bcder Source that has only part of the data buffered: the same name set and placements as econtent.fragments; the data arrives in pieces of k octets for k in {1,2,3,7,16}, in two pieces split at every offset 0..=len, and in three pieces split at (c, c+1); DER and BER mode; non-trivial = splits whose first boundary lies inside a file name");
+    let jobs: Vec<(usize, usize)> = (0..names.len()).flat_map(|n| [0usize, 1, 2].map(move |a| (n, a))).collect();
+    let parts: Vec<Tally> = jobs.par_iter().map(|&(ni, a)| {
+        let mut t = Tally::default();
+        let c = Case::plain(arrangement(fx, a, &names[ni]));
+        let ec = Bytes::from(c.econtent());
+        let spans = name_spans(&ec);
+        let n = ec.len();
+        let mut all: Vec<Cuts> = [1usize, 2, 3, 7, 16].iter().map(|k| Cuts::Every(*k)).collect();
+        for cut in 0..=n {
+            all.push(Cuts::At(vec![cut]));
+            if cut + 1 <= n { all.push(Cuts::At(vec![cut, cut + 1])) }
+        }
+        for cuts in &all {
+            if let Cuts::At(v) = cuts { if spans.iter().any(|&(f, e)| f < v[0] && v[0] < e) { t.nontrivial += 1 } }
+            for der_mode in [true, false] { run_pieces(&mut t, fx, &c, &ec, der_mode, cuts); }
+        }
+        t
+    }).collect();
+    let mut t = Tally::default();
+    for p in parts { t.absorb(p) }
+    t.flush(ctx, &sp);
+    sp.done(true, &format!("{} names x 3 placements x (5 piece sizes + every split offset, two and three pieces) x 2 modes", names.len()));
 }
 
 fn time_domain() -> Vec<TimeEnc> {
@@ -741,7 +978,7 @@ fn times(ctx: &Ctx, fx: &Fixed, cms: &Cms) {
                         (_, false) => "ordered_pair_rejected",
                     });
                 }
-                if n == 1 && idx % CMS_EVERY == 0 { run_cms(&mut t, fx, cms, &c, &ec, acc) }
+                if n == 1 && idx % CMS_EVERY == 0 { run_cms(&mut t, fx, cms, &c, &ec, acc); }
             }
         }
         t
@@ -817,7 +1054,12 @@ fn main() {
     let cms = Cms::new();
     {
         let c = Case::plain(vec![fx.good("a-b_C1.roa"), fx.good("X0.cer")]);
-        let obj = cms.wrap(&c.econtent());
+        let ec = c.econtent();
+        let signed = cms.sign(&ec);
+        let obj = cms.wrap(&ec, &signed);
+        if cms.assemble(&signed, &der::octets(&ec), false) != obj {
+            ctx.machinery_error("fixture: own SignedData assembly differs from der::signed_data for a primitive eContent");
+        }
         for strict in [true, false] {
             match Manifest::decode(obj.as_slice(), strict) {
                 Ok(m) => if let Err(e) = m.validate_at(&cms.ca, strict, pki::time(pki::T0)) {
@@ -828,12 +1070,15 @@ fn main() {
         }
     }
 
-    names_alphabet(&ctx, &fx, &cms);
-    names_octets(&ctx, &fx, &cms);
-    names_length(&ctx, &fx, &cms);
-    hash_bitstring(&ctx, &fx, &cms);
-    times(&ctx, &fx, &cms);
-    header_len(&ctx, &fx, &cms);
+    let timed = |name: &str, f: &dyn Fn()| { let t = std::time::Instant::now(); f(); eprintln!("  [{name}: {:.1}s]", t.elapsed().as_secs_f64()) };
+    timed("names.alphabet + cms.names", &|| names_alphabet(&ctx, &fx, &cms));
+    timed("names.octets", &|| names_octets(&ctx, &fx, &cms));
+    timed("names.length", &|| names_length(&ctx, &fx, &cms));
+    timed("econtent.fragments", &|| econtent_fragments(&ctx, &fx, &cms));
+    timed("source.pieces", &|| source_pieces(&ctx, &fx));
+    timed("hash.bitstring", &|| hash_bitstring(&ctx, &fx, &cms));
+    timed("times", &|| times(&ctx, &fx, &cms));
+    timed("header.len", &|| header_len(&ctx, &fx, &cms));
 
     ctx.finish();
 }
